@@ -57,6 +57,13 @@ CHECKS = {
             "alias == base, MIME-independence of routed extensions, and read_file dispatch observed through stubs on real temp files.",
             "Trusts the README tables as the specification of routing; Windows path semantics are not observable on this host.",
             "DESIGN.md §8 C07"),
+    "C10": ("exploration",
+            "reference-writer archives (zipfile, tarfile, independent 7z writer) over generated member documents; ordered comparison of read_archive results with stand-alone extraction of each member",
+            "For 23 layouts (ZIP stored/deflated, TAR plain/gz/bz2/xz, 7z Copy/LZMA/LZMA2 x solid/one-folder-per-file/pairs x plain/encoded header, mixed coders) archives of 0..10 generated documents with "
+            "directories, empty, hidden, macOS-fork, unsupported and nested-archive members interleaved are read; results must equal, in archive order, the results of extracting each eligible member's bytes on its own "
+            "under the same archive!/member path (canonical to_json), carry the member's file name and path label, and one corrupted member must not change any other member's result.",
+            "The 7z writer follows 7zFormat.txt and is validated by the repository's own reader on solid layouts; AES/BCJ2 coders are not produced.",
+            "DESIGN.md §8 C10"),
     "C11": ("exploration",
             "reference predicate vs validate_zipfile on a complete boundary lattice (stub infolist + forged real ZIPs) and a zip-order event-log monitor (ZipFile.__init__/open/read vs validation events, matched by content sha1) over all ZIP-container extractors",
             "The five thresholds (+ zero-compressed clause) are decided on every boundary vector (each threshold -1/0/+1, pairs combined, several limit settings, directory entries) three ways: stub infolist, "
